@@ -73,11 +73,25 @@ type pktChain struct {
 	restarts int // genesis export -> import restarts so far
 	kind     map[string]string // client name -> tm | bsc | eth | tss (what the client currently is)
 	toggled  map[string]bool   // clients currently switched away from their native kind
+	tssCur   map[string]int    // TSS client name -> account index of its authoritative address (own record)
+	tssEver  map[string]map[int]bool // TSS client name -> accounts that have been authoritative at some point
 }
 
 const pktT = 3 // index of the TSS account
 
+const pktT2 = 4 // the second TSS key (rotations)
+
 func (c *pktChain) tssAddr() string { return c.accts[pktT].addr.String() }
+
+// tssAcct: the account whose address is the authoritative TSS address of client `name` according to the harness' own
+// record: the one named by the create / toggle / upgrade proposal or by the last ACCEPTED MsgUpdateClient.
+func (c *pktChain) tssAcct(name string) int {
+	if a, ok := c.tssCur[name]; ok {
+		return a
+	}
+	return pktT
+}
+func (c *pktChain) tssAddrOf(name string) string { return c.accts[c.tssAcct(name)].addr.String() }
 
 type pktSent struct {
 	bz       []byte
@@ -145,7 +159,7 @@ func pktNewWorld(t *testing.T, r *Rec, mixedCase bool) *pktWorld {
 	w.op("reset", "ok")
 	for i := 0; i < 3; i++ {
 		tc := w.coord.GetChain(xibctesting.GetChainID(i))
-		c := &pktChain{tc: tc, name: tc.ChainID, prev: map[string]string{}, track: map[string]*pktChain{}, reg: map[string][]string{}, regAddr: map[string]map[string]string{}, kind: map[string]string{}, toggled: map[string]bool{}}
+		c := &pktChain{tc: tc, name: tc.ChainID, prev: map[string]string{}, track: map[string]*pktChain{}, reg: map[string][]string{}, regAddr: map[string]map[string]string{}, kind: map[string]string{}, toggled: map[string]bool{}, tssCur: map[string]int{}, tssEver: map[string]map[int]bool{}}
 		if mixedCase {
 			// the XIBC chain name is independent of the Tendermint chain id (which stays tc.ChainID): rename the chain
 			// in the client keeper and in the packet contract before anything else happens
@@ -159,7 +173,7 @@ func pktNewWorld(t *testing.T, r *Rec, mixedCase bool) *pktWorld {
 	}
 	// extra accounts (same keys on all chains so that addresses coincide, like the testing sender)
 	var extra []*ethsecp256k1.PrivKey
-	for i := 0; i < 3; i++ { // R1, R2 and T (the TSS account)
+	for i := 0; i < 4; i++ { // R1, R2, T (the TSS account) and T2 (the key TSS rotations switch to)
 		// deterministic keys derived from the PRNG
 		kb := make([]byte, 32)
 		r.Rng.Read(kb)
@@ -495,7 +509,7 @@ func (w *pktWorld) truth(c *pktChain, client string, path []byte, value []byte, 
 	if c.kind[client] == "tss" {
 		// a TSS-secured counterparty: what it "committed" is what its TSS address signs — by construction of the harness
 		// the TSS account T; the proof field plays no role
-		return w.curSigner == c.tssAddr(), true
+		return w.curSigner == c.tssAddrOf(client), true
 	}
 	if ev, isEvm := w.evmBy[c.name+"|"+client]; isEvm {
 		return ev.truth(path, value, h, proof)
@@ -872,8 +886,17 @@ func (w *pktWorld) updateClient(c *pktChain, name string, acct int) bool {
 	} else {
 		w.r.Count("update.accepted")
 	}
+	// the stored verifier after the update, read back from the client store
+	stored := "none"
+	if cons, found := c.tc.App.XIBCKeeper.ClientKeeper.GetClientConsensusState(c.tc.GetContext(), name, height); found {
+		stored = hx(cons.GetRoot())
+	}
 	w.op(fmt.Sprintf("update %s %d %s %d %d %s %s %s", hxs(c.name), now, hxs(name), height.RevisionNumber, height.RevisionHeight,
-		hx(root), hxs(c.accts[acct].addr.String()), hok), res+" L="+latest)
+		hx(root), hxs(c.accts[acct].addr.String()), hok), res+" L="+latest+" V="+stored)
+	if derr == nil && stored != hx(root) {
+		w.r.Find(Finding{Sig: "C02:update-accepted-root-not-stored", What: "an accepted MsgUpdateClient must leave the header's root as the consensus state at the header height",
+			Ops: append([]string{}, w.hist...), Obs: stored, Req: hx(root)})
+	}
 	return derr == nil
 }
 
